@@ -173,7 +173,7 @@ class NearMiss(T.Concretiser):
 
 def jobs(chk, tier):
     sd = C.seed()
-    for r, g, cfg in T.records(chk, tier, INVS):
+    for r, g, cfg in T.records(chk, tier, INVS, runs=T.deep_runs(tier)):
         yield (r, g, 'exact', sd)
         if r.get('reject') and not r.get('assertion'):
             continue
